@@ -19,9 +19,11 @@ META = dict(
           "Force::Gravity, which does its own lazy caching with manual invalidation and precalculated zeroes, has that protocol under CBMC function/loop contracts "
           "for any number of bodies: realizeTopology establishes, every State-based setter preserves, and ensureForceCacheValid/getBodyForces/getPotentialEnergy/calcForce "
           "rely on the invariant 'excluded bodies and g==0 hold exact zeroes; a valid cache holds the documented value of the current g, d, z, exclusions' "
-          "(force values abstracted by tags)."),
+          "(force values abstracted by tags). Force::LinearBushing (agent-built part_bushing): the whole documented law (q, qdot, f = -(kq + c qdot), PE, dissipation, "
+          "F_GM/F_GF/F_GB1/F_GB2) and its four lazy cache entries: allocation table, early returns, each ensure* marks exactly its own entry, and each State-based setter "
+          "(setStiffness/setDamping/setFrameOnBody1/2) writes only through the Instance-stage variable so that the next evaluation equals that of a fresh element with the new parameter."),
     note=("Assumes real arithmetic and the mocked matter/State API contracts listed in the evidence; trusts z3/cvc5, CBMC, transliterator/extractor rules. "
-          "LinearBushing, Thermostat, DiscreteForces, Custom, CableSpring and enable/exclusion flags are not covered."),
+          "Thermostat, DiscreteForces, Custom, CableSpring and enable flags are not covered."),
     technique="symbolic execution of transliterated real code over the reals + SMT (z3 QF_NRA); CBMC contracts for the caching class invariant",
     design_ref="4 C16/C38")
 
@@ -61,10 +63,14 @@ def main(ctx, only_b=False):
     ctx.assume("machine arithmetic treated as mathematical (reals)")
     for a in FL.world_assumptions():
         ctx.assume(a)
-    ctx.not_decided += ["LinearBushing (Euler-angle inference), Thermostat, DiscreteForces, MobilityDiscreteForce, Custom, CableSpring",
+    import part_bushing
+    part_bushing.c38_part(ctx)
+    ctx.not_decided += ["Thermostat, DiscreteForces, MobilityDiscreteForce, Custom, CableSpring",
                         "enable/disable flags (Force::setDisabled) between realizations"]
     ctx.explanation = "%d functions under contract; %d obligations." % (len(ctx.functions), len(ctx.obligations))
     def rp(ob):
+        if (ob.unit or "").startswith("bushing."):
+            return part_bushing.replay(ctx, ob)
         if ob.unit.startswith("forcecache") or ob.unit.startswith("gravity."):
             for r in replayers:          # each part's replayer answers ({}, None) for units that are not its own
                 rep, ok = r(ob)
